@@ -431,6 +431,14 @@ theorem cramBlockValue_total (X : Expanders) (b : Block)
     (blockValue X b).isPanic = false := blockValue_total' X b hX hb
 
 open Hts.Model.CramDec in
+/-- `Block.Value` never panics for EVERY block and EVERY behaviour of the decompressors, also when the data
+expands to 4 GiB or more: with repair C11-23 the end of the header text is `4+uint64(end)` and cannot wrap
+(before it `blockData[4 : 4+end]` panicked "slice bounds out of range [4:0]" on a file header block expanding
+to `fc ff ff ff` followed by 2^32 bytes) -/
+theorem cramBlockValue_total_all (X : Expanders) (b : Block) : (blockValue X b).isPanic = false :=
+  blockValue_total_all X b
+
+open Hts.Model.CramDec in
 /-- every block `Block.readFrom` returns satisfies the size hypothesis of `cramBlockValue_total` -/
 theorem cramBlock_value_ready (crc32 : Bytes → Nat) (s : Bytes) (b : Block) (rest : Bytes)
     (h : readBlock crc32 s = ok (b, rest)) : b.data.length < 4294967296 := by
